@@ -191,6 +191,25 @@ def check_value(key, other_key):
         fails.append(('object-changed-by-mutation-attempt', ctx))
     if fresh_before != fresh:
         fails.append(('fresh-parses-differ', ctx))
+    # the caller's own dicts are not part of the value: mutate them after compile
+    pat, ns, custom, flags = key
+    ns_arg = dict(ns) if ns is not None else None
+    cu_arg = dict(custom) if custom is not None else None
+    sv.purge()
+    c2 = do_compile((pat, ns_arg, cu_arg, flags))
+    snap = (repr(c2), hash(c2))
+    for d in (ns_arg, cu_arg):
+        if d is not None:
+            for k2 in list(d):
+                d[k2] = d[k2] + 'x'
+            d['zz'] = 'urn:zz'
+            d.pop(next(iter(d)))
+    try:
+        if (repr(c2), hash(c2)) != snap or c2 != fresh or hash(c2) != hash(fresh):
+            fails.append(('compiled-object-aliases-callers-dict', f'{ctx}: mutating the dict passed as namespaces/custom after compile changed the compiled selector'))
+    except Exception as e:  # noqa: BLE001
+        fails.append(('compiled-object-aliases-callers-dict', f'{ctx}: {e!r:.150}'))
+    sv.purge()
     # copies
     doc = witness()
     try:
